@@ -108,7 +108,7 @@ func main() {
 	} else if *pairs {
 		logs, vars = genPairs(*tier == "thorough")
 	} else if *edge {
-		logs, vars = genEdges()
+		logs, vars = genEdges(x.baseOf(0))
 	} else if *hllj {
 		logs, vars = genHll()
 	} else if *sweep {
@@ -421,10 +421,16 @@ func genPairs(thorough bool) ([]*Log, map[string][]*Variant) {
 // limits, TTL spellings, missing table, odd argument counts, too many fields), each preceded by two
 // valid batchable writes, applied one per call / in one lifetime / in one call. A command that fails
 // must fail alone (hypothesis no_abort_in_batch: an abort-class failure implies rvalid = false).
-func genEdges() ([]*Log, map[string][]*Variant) {
+func genEdges(base int64) ([]*Log, map[string][]*Variant) {
 	rep := func(c string, n int) string { return strings.Repeat(c, n) }
 	ttls := []string{"1", "0", "-1", "+5", " 5", "5 ", "05", "0x10", "1e3", "abc", "", "4294967294", "4294967295", "4294967293", "3153600000", "2500000000", "2147483647",
 		"9223372036854775807", "9223372036854775808", "99999999999", "1.5"}
+	// the TTLs around the one whose expiry second (entry timestamp + TTL) is exactly the largest the uint32
+	// header accepts: the pre-check and the handler (rawExpireAt: when >= MaxUint32-1 fails) must agree on each
+	tsSec := (base + sec + 2) / sec // second of the edge command's timestamp (third request of each log)
+	for k := int64(-3); k <= 2; k++ {
+		ttls = append(ttls, strconv.FormatInt(int64(4294967295-1)-tsSec+k, 10))
+	}
 	keys := []string{"t:k", "t:", ":k", "nocolon", "t:" + rep("K", 10238), "t:" + rep("K", 10239), rep("T", 300) + ":k", "t:k:k", "t:\x00"}
 	big := rep("v", 8*1024*1024)
 	var cmds [][]string
